@@ -233,6 +233,15 @@ def fn_programs() -> list:
          "fb": DEF(["n"], [FOR("i", V("n"), [ASSIGN("t", BIN("*", V("i"), F(0.5)))]), RETURN(V("t"))])},
         [IF([(CMP(AREAD(), (">", I(1))), [ASSIGN("z", I(1))])], [ASSIGN("z", I(2))]), WRITE(CALL("fa", I(2))), WRITE(CALL("fb", I(4))), WRITE(V("z")),
          WRITE(CALL("fb", I(2))), WRITE(CALL("fa", I(0)))], ain=[5], lead=1)
+    # a helper assigns a name WITHOUT declaring it global: the name is local to that helper although a global of that name exists
+    # (and another helper does declare it global)
+    add("fn_local_shadows_global", {"setg": DEF([], [ASSIGN("g", I(3))], ["g"]),
+                                    "wrap": DEF([], [ASSIGN("g", I(4)), EXPR(CALL("setg")), WRITE(BIN("+", V("g"), I(5)))]),
+                                    "rd": DEF([], [RETURN(V("g"))]),
+                                    "lp": DEF(["n"], [ASSIGN("acc", I(0)), FOR("k", V("n"), [AUG("acc", "+", V("k"))]), RETURN(V("acc"))])},
+        [ASSIGN("g", I(1)), ASSIGN("acc", I(100)), ASSIGN("k", I(50)), EXPR(CALL("wrap")), WRITE(V("g")), WRITE(CALL("rd")), WRITE(CALL("lp", I(4))), WRITE(V("acc")), WRITE(V("k"))])
+    add("fn_for_branch_hoist", {"f": DEF(["n"], [FOR("i", V("n"), [IF([(CMP(V("i"), ("==", I(0))), [ASSIGN("w", I(9))])]), WRITE(V("w"))]), RETURN(V("w"))])},
+        [WRITE(CALL("f", I(3)))])
     add("fn_list", {"total": DEF(["xs"], [ASSIGN("t", I(0)), FOR("i", CALL("len", V("xs")), [AUG("t", "+", INDEX(V("xs"), V("i")))]), RETURN(V("t"))])}, [ASSIGN("v", LIST(I(1), I(2), AREAD())), WRITE(CALL("total", V("v")))], ain=[4])
     return P
 
@@ -269,6 +278,11 @@ def persist_programs() -> list:
         [DWRITE(7, CMP(AREAD(), (">", I(0)))), DWRITE(6, I(1))], ain=[1, 0, 1])
     add("pro_mode_in_blocks", [PMODE(7, "out"), IF([(CMP(AREAD(), (">", I(0))), [PMODE(7, "in"), PMODE(7, "out")])]), FOR("mi", I(2), [PMODE(5, "out"), DWRITE(5, V("mi"))])],
         [PMODE(7, "out"), DWRITE(7, I(1))], ain=[1])
+    # names hoisted out of a branch that sits inside a loop: the hoisted declaration must not reset the name on every iteration / pass
+    add("per_global_then_branch", [EXPR(CALL("init")), ASSIGN("n", I(0))], [AUG("n", "+", I(1)), IF([(CMP(V("n"), (">", I(1))), [ASSIGN("x", BIN("+", V("x"), I(1)))])]), WRITE(V("x"))],
+        defs={"init": DEF([], [ASSIGN("x", I(5))], ["x"])})
+    add("pro_while_branch_hoist", [ASSIGN("k", I(0)), WHILE(CMP(V("k"), ("<", I(3))), [IF([(CMP(V("k"), ("==", I(0))), [ASSIGN("u", I(7))])]), AUG("k", "+", I(1)), WRITE(V("u"))])], None)
+    add("per_nested_hoist", [ASSIGN("n", I(0))], [AUG("n", "+", I(1)), FOR("j", I(2), [IF([(CMP(V("n"), ("==", I(1))), [ASSIGN("q", I(4))])]), WRITE(V("q"))])])
     add("per_pins", [DWRITE(7, I(1)), AWRITE(9, I(100))], [DWRITE(7, CMP(AREAD(), (">", I(0)))), AWRITE(9, AREAD()), SLEEP(I(10))], ain=[1, 5, 0, 200, 1, 255])
     return P
 
